@@ -259,15 +259,15 @@ theorem tag_grammar :
 of the target, base 0; floats at the bit size of the target too (a text beyond the float32 range is no float32: `castFloat`);
 bool through ParseBool; strings unchanged -/
 theorem cast_table :
-    Gen.Config.castTable = [("Bool", "castBool"), ("Int", "castInt"), ("Int8", "castInt"), ("Int16", "castInt"),
-      ("Int32", "castInt"), ("Int64", "castInt"), ("Uint", "castUint"), ("Uint8", "castUint"), ("Uint16", "castUint"),
-      ("Uint32", "castUint"), ("Uint64", "castUint"), ("Float32", "castFloat"), ("Float64", "castFloat"),
-      ("String", "return v")] ∧
+    Gen.Config.castTable = [("Bool", "castBool"), ("Float32", "castFloat"), ("Float64", "castFloat"), ("Int", "castInt"),
+      ("Int16", "castInt"), ("Int32", "castInt"), ("Int64", "castInt"), ("Int8", "castInt"), ("String", "return v"),
+      ("Uint", "castUint"), ("Uint16", "castUint"), ("Uint32", "castUint"), ("Uint64", "castUint"), ("Uint8", "castUint")] ∧
+    Gen.Config.castOtherwise = "nil, ErrUnsupportedKind" ∧
     Gen.Config.castParse = [("castBool", "strconv.ParseBool"), ("castInt", "strconv.ParseInt 0 t.Bits()"),
       ("castUint", "strconv.ParseUint 0 t.Bits()"), ("castFloat", "strconv.ParseFloat t.Bits()")] ∧
     Gen.Config.castKinds = [("castBool", []), ("castInt", ["Int", "Int8", "Int16", "Int32", "Int64"]),
       ("castUint", ["Uint", "Uint8", "Uint16", "Uint32", "Uint64"]), ("castFloat", ["Float32", "Float64"])] :=
-  ⟨rfl, rfl, rfl⟩
+  ⟨rfl, rfl, rfl, rfl⟩
 
 /-- `cli.readConfig`: the key, the value, and that the defaulting happens before the decode -/
 theorem discard_eq :
